@@ -880,6 +880,8 @@ func mayCombine(prev token.Token, next byte) (b bool) {
 		b = next == '-' || next == '<' // <- or <<
 	case token.AND:
 		b = next == '&' || next == '^' // && or &^
+	case token.COLON:
+		b = next == '=' // := (a slice index that starts with =>)
 	}
 	return
 }
